@@ -13,7 +13,9 @@ EXTENDS Integers, Sequences, FiniteSets, TLC
 
 CONSTANTS Schemes,      \* subset of {"basic","jwt","slink","blockip","blockrule","authreq"}
           JwtKeySets,   \* subset of DOMAIN KeySet
-          JwtTimes,     \* subset of TimeClasses
+          JwtExps,      \* subset of {"absent", "future", "past"}
+          JwtNbfs,      \* subset of {"absent", "past", "future"}
+          JwtIats,      \* subset of {"absent", "past", "soon", "far"}   (soon = a few seconds ahead, far = an hour)
           JwtHdrs,      \* subset of HdrForms
           MaxRules      \* mod_block: rules per list
 
@@ -82,29 +84,34 @@ SignersOf(alg) == IF Family(alg) = "oct" THEN {"k1", "k2", "kx", "r1pub", "nosig
                   ELSE IF Family(alg) = "rsa" THEN {"r1", "rx", "nosig"}
                   ELSE IF Family(alg) = "ec" THEN {"e1", "ex", "nosig"}
                   ELSE {"nosig", "k1"}      \* alg=none: no signature, or a stray HS256 signature
-TimeClasses == {"none", "exp-future", "exp-past", "nbf-past", "nbf-future", "exp-future-nbf-future",
-                "exp-future-nbf-past", "iat-future"}
-TimesOK(t) == t \in {"none", "exp-future", "nbf-past", "exp-future-nbf-past", "iat-future"}
+\* the time claims are independent components of a token: every combination is enumerated
+ExpOK(t) == t.exp \in {"absent", "future"}
+NbfOK(t) == t.nbf \in {"absent", "past"}
+IatPlain(t) == t.iat \in {"absent", "past"}
 HdrForms == {"bearer", "absent", "lower", "two-spaces", "basic-scheme", "no-token", "extra-part", "two-segments"}
 Tampers == {"none", "payload", "sig"}
 
-Tokens == UNION { [alg : {a}, signer : SignersOf(a), times : JwtTimes, tamper : Tampers, hdr : JwtHdrs]
-                  : a \in Algs }
-\* the full token space under a matching rule with the default realm; uncovered requests and
-\* the realm echo only need a few tokens
+Tokens == UNION { [alg : {a}, signer : SignersOf(a), exp : JwtExps, nbf : JwtNbfs, iat : JwtIats,
+                   tamper : Tampers, hdr : JwtHdrs] : a \in Algs }
+Timeless(t) == t.nbf = "absent" /\ t.iat = "absent"
+\* Under a matching rule with the default realm and a well-formed Bearer header the token space is the
+\* full PRODUCT signature (signer x tamper x alg) x exp x nbf x iat: defects are combined, not
+\* taken one at a time.  Other header forms, uncovered requests and the realm echo need fewer tokens.
 JwtInputs == { i \in [scheme : {"jwt"}, cover : Covers, keys : JwtKeySets, realm : Realms, tok : Tokens] :
-                 (i.cover # "rule" \/ i.realm # "") =>
-                     /\ i.tok.times \in {"none", "exp-past"} /\ i.tok.tamper = "none"
-                     /\ i.tok.hdr \in {"bearer", "absent"} }
+                 /\ (i.tok.hdr # "bearer" => Timeless(i.tok) /\ i.tok.exp \in {"absent", "past"} /\ i.tok.tamper = "none")
+                 /\ ((i.cover # "rule" \/ i.realm # "") =>
+                       /\ Timeless(i.tok) /\ i.tok.exp \in {"absent", "past"} /\ i.tok.tamper = "none"
+                       /\ i.tok.hdr \in {"bearer", "absent"}) }
 
 Range(s) == {s[n] : n \in 1..Len(s)}
 \* "signed with a configured key using that key's algorithm"
 SignedBy(t, k) == /\ t.signer = k.id
                   /\ Family(t.alg) = k.kty
                   /\ (k.alg # "" => t.alg = k.alg)
-JwtCore(i) == /\ i.tok.tamper = "none" /\ TimesOK(i.tok.times)
+\* admit iff EVERY component is acceptable: signature, exp, nbf (iat: see JwtGray)
+JwtCore(i) == /\ i.tok.tamper = "none" /\ ExpOK(i.tok) /\ NbfOK(i.tok)
               /\ \E k \in Range(KeySet[i.keys]) : SignedBy(i.tok, k)
-JwtGray(i) == i.tok.hdr \in {"lower", "two-spaces"} \/ i.tok.times = "iat-future"
+JwtGray(i) == i.tok.hdr \in {"lower", "two-spaces"} \/ ~IatPlain(i.tok)
 JwtAllowed(i) ==
   LET deny == Deny(401, "Bearer", RealmOf(i.realm)) IN
   IF i.cover # "rule" THEN {Admit}
@@ -122,7 +129,7 @@ JwtTryKey(t, k) == /\ t.alg # "none"
                    /\ Family(t.alg) = k.kty
                    /\ (k.alg # "" => t.alg = k.alg)
                    /\ t.signer = k.id /\ t.tamper = "none"
-                   /\ t.times \in {"none", "exp-future", "nbf-past", "exp-future-nbf-past"}
+                   /\ ExpOK(t) /\ NbfOK(t) /\ IatPlain(t)
 JwtM(i) ==
   LET deny == Deny(401, "Bearer", RealmOf(i.realm)) IN
   IF i.cover # "rule" THEN Admit
